@@ -75,6 +75,22 @@ def swap_collections(text):
     return "\n".join(out), n
 
 
+def swap_ok_filter(text):
+    """`.filter_map(Result::ok)` -> `.verif_ok_only()`.
+
+    In the verification build that is the model adapter of kani/support/util.rs:
+    std's FilterMap goes through find_map/try_fold/ControlFlow, which defeats
+    CBMC's constant propagation (measured: 500k symex steps for a 2-record
+    concrete stream vs 12k with the model); same semantics: yield the Ok
+    payloads, skip the Errs. With the guard off `verif_ok_only` is defined (in
+    lib.rs, below) as literally `filter_map(Result::ok)`."""
+    n = text.count(".filter_map(Result::ok)")
+    if n:
+        text = text.replace(".filter_map(Result::ok)", ".verif_ok_only()")
+        text = "use crate::verif_support::util::OkOnlyExt;\n" + text
+    return text, n
+
+
 def stop_before_tests(text):
     """The `#[cfg(test)] mod tests` block stays untouched (it may import std
     containers for its own use)."""
@@ -94,7 +110,21 @@ def main():
         head, n = swap_collections(head)
         if n == 0:
             missing.append(f"{rel}: no `use std::collections::` line found")
+        head, _ = swap_ok_filter(head)
         open(p, "w").write(head + tail)
+
+    # ProguardRecord gets an explicit tag in the verification build: with the
+    # default niche layout the discriminant of the dataful variant (Method) is
+    # read through a byte offset into nested fields and CBMC cannot constant-fold
+    # it; `repr(u8)` only changes the layout, not the semantics.
+    p = os.path.join(root, "src/mapping.rs")
+    text = open(p).read()
+    m = re.search(r"^pub enum ProguardRecord<", text, re.M)
+    if m:
+        text = text[:m.start()] + "#[cfg_attr(kani, repr(u8))]\n" + text[m.start():]
+        open(p, "w").write(text)
+    else:
+        print("INSTRUMENT-NOTE: enum ProguardRecord not found; builder harnesses will be slow")
 
     # any other use of std containers in non-test code is reported
     other = []
@@ -120,12 +150,20 @@ def main():
             missing.append(f"{rel}: file not found")
             continue
         with open(p, "a") as fh:
-            fh.write(f'\n#[cfg(kani)]\n#[path = "{hp}"]\nmod verif_harness;\n')
+            fh.write(f'\n#[cfg(kani)]\n#[path = "{hp}"]\npub(crate) mod verif_harness;\n')
 
     lib = os.path.join(root, "src/lib.rs")
     with open(lib, "a") as fh:
         fh.write(
             f'\n{CFG_ON}\n#[path = "{VERIF}/kani/support/mod.rs"]\npub(crate) mod verif_support;\n'
+        )
+        fh.write(
+            f"\n{CFG_OFF}\npub(crate) mod verif_support {{\n    pub mod util {{\n"
+            "        pub trait OkOnlyExt: Iterator + Sized {\n"
+            "            fn verif_ok_only<T, E>(self) -> core::iter::FilterMap<Self, fn(Result<T, E>) -> Option<T>>\n"
+            "            where\n                Self: Iterator<Item = Result<T, E>>,\n            {\n"
+            "                self.filter_map(Result::ok)\n            }\n        }\n"
+            "        impl<I: Iterator> OkOnlyExt for I {}\n    }\n}\n"
         )
         pinned = os.path.join(VERIF, "pinned", "mod.rs")
         if os.path.exists(pinned):
